@@ -1,5 +1,6 @@
 (* C08 — ether is conserved by every transaction.
-   Statements only; proofs in Proofs/EtherProofs.v, EtherOps.v, EtherHist.v, EtherFrames.v, EtherTx.v.
+   Statements only; proofs in Proofs/EtherProofs.v, EtherOps.v, EtherHist.v, EtherFrames.v, EtherTx.v, and
+   (composition with the reference interpreter of C01, sections (e) and (f)) Proofs/EvmEtherProofs.v.
    Model: Model/Host.v (JournaledState: transfer, create_account_checkpoint, selfdestruct,
    checkpoints), Model/Ether.v (observed balance, total over a finite universe, burnt ether
    according to the journal), Model/Settlement.v (fee settlement of C09).
@@ -19,6 +20,7 @@
 From RevmV Require Import Base.Word Model.Gas Model.Envelope Model.Settlement Proofs.SettlementProofs.
 From RevmV Require Import Model.Host Model.Ether Model.Frames Proofs.HostView Proofs.HostOps Proofs.HostMain
   Proofs.FramesProofs Proofs.EtherProofs Proofs.EtherOps Proofs.EtherHist Proofs.EtherFrames Proofs.EtherTx.
+From RevmV Require Model.Step Model.Evm Proofs.EvmHistoryProofs Proofs.EvmEtherProofs.
 Local Open Scope Z_scope.
 
 (* the summed quantity is the balance component of the C06 observation *)
@@ -346,4 +348,427 @@ Proof.
   split; [vm_compute; reflexivity|].
   split; [vm_compute; reflexivity|].
   unfold s4. destruct reward; vm_compute; reflexivity.
+Qed.
+
+(* ================================================================ (e) composition with the interpreter *)
+(* Up to here the execution was an arbitrary history / frame-event tree satisfying the contract.
+   Model/Step.v + Model/Evm.v are the reference interpreter of C01 (tied to the Rust code by the
+   C01 correspondence run); Proofs/EvmHistoryProofs.v shows that a frame run by the create-free
+   interpreter [exec_nc] (CREATE / CREATE2 answered by a marker; whatever it computes, [exec]
+   computes: C01_create_free_interpreter_agrees) is a well-bracketed history of operations that
+   are inside the C06 contract by their shape.  Here: that history is inside the C08 contract,
+   for every program, input, hardfork and state, provided the frame starts from a well-formed
+   state under the supply bound
+
+       SB d s := every duplicate-free list of addresses has total balance < 2^256.
+
+   SB replaces the per-self-destruct hypothesis "the beneficiary does not overflow" (F13) of
+   hop_ok8 / econtract8: it is a hypothesis on the start state only, and it is an invariant
+   (the theorems give it back for the end state). *)
+Import Step Evm EvmHistoryProofs EvmEtherProofs.
+
+Theorem C08_supply_bound_definition :
+  forall d s, SB d s <-> (forall us, NoDup us -> total d s us < pow256).
+Proof. intros. split; intros H; exact H. Qed.
+
+(* finitely many funded accounts with a sum below 2^256 *)
+Theorem C08_supply_bound_of_finite_support :
+  forall d s L, (forall a, 0 <= bal d s a) -> (forall a, ~ In a L -> bal d s a = 0) ->
+    total d s L < pow256 -> SB d s.
+Proof. exact SB_support. Qed.
+
+(* the supply bound is what makes the C08 contract of a non-create operation hold *)
+Theorem C08_supply_bound_gives_contract :
+  forall d s o, okhop o -> WF d s -> SB d s -> hop_ok8 d s o.
+Proof. exact okhop_ok8. Qed.
+
+(* a frame: the interpreter's effect on the journaled state is an execution inside the C08
+   contract (exec_hist, the hypothesis of C08_transaction_conserves), which closes the checkpoints
+   it opens; well-formedness and the supply bound hold again at the end *)
+Theorem C08_interpreter_frame_in_contract :
+  forall W f G F I G' r,
+    let d := gdb W G in
+    WF d (gs G) -> SB d (gs G) -> exec_nc f W G F I = XDone (G', r) ->
+    (exists h, exec_hist d h (gs G) (gs G') /\ run_hops d (gs G, []) h = Some (gs G', [])) /\
+    snd (g_sc G') = snd (g_sc G) /\ gdb W G' = d /\ WF d (gs G') /\ SB d (gs G').
+Proof.
+  intros W f G F I G' r d Wf B E. apply conserves_in_contract.
+  exact (frame_conserves W f G F I G' r Wf B E).
+Qed.
+
+(* hence it conserves ether: over every universe outside of which no balance has changed, the
+   total afterwards is the total before minus what the frame's self-destructs-to-self burnt
+   (and did not revert) *)
+Theorem C08_interpreter_frame_conserves :
+  forall W f G F I G' r us,
+    let d := gdb W G in
+    WF d (gs G) -> SB d (gs G) -> exec_nc f W G F I = XDone (G', r) ->
+    NoDup us -> (forall a, ~ In a us -> bal d (gs G') a = bal d (gs G) a) ->
+    total d (gs G') us = total d (gs G) us - (jburn (journal (gs G')) - jburn (journal (gs G))).
+Proof.
+  intros W f G F I G' r us d Wf B E. apply conserves_total; [exact Wf|].
+  exact (frame_conserves W f G F I G' r Wf B E).
+Qed.
+
+(* such universes exist: a frame changes finitely many balances *)
+Theorem C08_interpreter_frame_footprint :
+  forall W f G F I G' r,
+    let d := gdb W G in
+    WF d (gs G) -> SB d (gs G) -> exec_nc f W G F I = XDone (G', r) ->
+    exists L, NoDup L /\ forall a, ~ In a L -> bal d (gs G') a = bal d (gs G) a.
+Proof.
+  intros W f G F I G' r d Wf B E. apply conserves_footprint; [exact Wf|].
+  exact (frame_conserves W f G F I G' r Wf B E).
+Qed.
+
+(* the natural universe: every account that is loaded when the frame ends (accounts are never
+   unloaded, and an account that was never loaded shows the balance of the database) *)
+Theorem C08_interpreter_frame_conserves_loaded :
+  forall W f G F I G' r us,
+    let d := gdb W G in
+    WF d (gs G) -> SB d (gs G) -> exec_nc f W G F I = XDone (G', r) ->
+    NoDup us -> (forall a, Host.st (gs G') a <> None -> In a us) ->
+    total d (gs G') us = total d (gs G) us - (jburn (journal (gs G')) - jburn (journal (gs G))).
+Proof.
+  intros W f G F I G' r us d Wf B E. apply conserves_total_loaded; [exact Wf|].
+  exact (frame_conserves W f G F I G' r Wf B E).
+Qed.
+
+(* partial: the interpreter [exec] itself, on the runs on which no CREATE / CREATE2 is reached
+   (the create-free interpreter completes; then both compute the same). Missing for runs with
+   creates: the create branch of the C01 history theorem; histories that do not depend on the
+   growing code table (db_delegate of Model/Step.v's database changes when code is deployed); and
+   the C06 contract of create_account_checkpoint / set_code (created address <> creator, not an
+   account created earlier in the transaction with nonce 0 and no code, code set once), which
+   rests on collision-freedom of the keccak address derivation. Those runs are covered by
+   C08_frames_conserve with the contract as hypothesis. *)
+Theorem C08_interpreter_exec_conserves_partial :
+  forall W f G F I G' r us,
+    let d := gdb W G in
+    WF d (gs G) -> SB d (gs G) -> exec f W G F I = XDone (G', r) ->
+    (exists x, exec_nc f W G F I = XDone x) ->
+    NoDup us -> (forall a, Host.st (gs G') a <> None -> In a us) ->
+    total d (gs G') us = total d (gs G) us - (jburn (journal (gs G')) - jburn (journal (gs G))) /\
+    WF d (gs G') /\ SB d (gs G').
+Proof. exact exec_conserves_partial. Qed.
+
+(* the same for a complete call: make_call_frame (value transfer, precompile, depth / funds
+   failures), the callee's frames, call_return with commit or revert *)
+Theorem C08_interpreter_call_in_contract :
+  forall W f G c G' r,
+    let d := gdb W G in
+    WF d (gs G) -> SB d (gs G) -> (cq_transfers c = true -> 0 <= cq_value c) ->
+    do_call W (exec_nc f W) G c = XDone (G', r) ->
+    (exists h, exec_hist d h (gs G) (gs G') /\ run_hops d (gs G, []) h = Some (gs G', [])) /\
+    snd (g_sc G') = snd (g_sc G) /\ gdb W G' = d /\ WF d (gs G') /\ SB d (gs G').
+Proof.
+  intros W f G c G' r d Wf B V E. apply conserves_in_contract.
+  exact (call_conserves W f G c G' r Wf B V E).
+Qed.
+
+Theorem C08_interpreter_call_conserves :
+  forall W f G c G' r us,
+    let d := gdb W G in
+    WF d (gs G) -> SB d (gs G) -> (cq_transfers c = true -> 0 <= cq_value c) ->
+    do_call W (exec_nc f W) G c = XDone (G', r) ->
+    NoDup us -> (forall a, ~ In a us -> bal d (gs G') a = bal d (gs G) a) ->
+    total d (gs G') us = total d (gs G) us - (jburn (journal (gs G')) - jburn (journal (gs G))).
+Proof.
+  intros W f G c G' r us d Wf B V E. apply conserves_total; [exact Wf|].
+  exact (call_conserves W f G c G' r Wf B V E).
+Qed.
+
+Theorem C08_interpreter_call_footprint :
+  forall W f G c G' r,
+    let d := gdb W G in
+    WF d (gs G) -> SB d (gs G) -> (cq_transfers c = true -> 0 <= cq_value c) ->
+    do_call W (exec_nc f W) G c = XDone (G', r) ->
+    exists L, NoDup L /\ forall a, ~ In a L -> bal d (gs G') a = bal d (gs G) a.
+Proof.
+  intros W f G c G' r d Wf B V E. apply conserves_footprint; [exact Wf|].
+  exact (call_conserves W f G c G' r Wf B V E).
+Qed.
+
+Theorem C08_interpreter_call_conserves_loaded :
+  forall W f G c G' r us,
+    let d := gdb W G in
+    WF d (gs G) -> SB d (gs G) -> (cq_transfers c = true -> 0 <= cq_value c) ->
+    do_call W (exec_nc f W) G c = XDone (G', r) ->
+    NoDup us -> (forall a, Host.st (gs G') a <> None -> In a us) ->
+    total d (gs G') us = total d (gs G) us - (jburn (journal (gs G')) - jburn (journal (gs G))).
+Proof.
+  intros W f G c G' r us d Wf B V E. apply conserves_total_loaded; [exact Wf|].
+  exact (call_conserves W f G c G' r Wf B V E).
+Qed.
+
+(* non-vacuity: a SHANGHAI world. The sender calls 0x2000 with 5 wei; its code calls 0x3000 with
+   2 wei, which self-destructs to itself (7 + 2 wei burnt: the account is deleted before CANCUN),
+   then self-destructs to 0x4000 (103 wei move). *)
+Definition ex9_code2 : list Z :=
+  [0x60;0;0x60;0;0x60;0;0x60;0;0x60;2;0x61;0x30;0x00;0x5a;0xf1;0x50;   (* call(gas, 0x3000, 2, 0,0,0,0); pop *)
+   0x61;0x40;0x00;0xff].                                              (* selfdestruct(0x4000) *)
+Definition ex9_code3 : list Z := [0x30;0xff].                          (* selfdestruct(address) *)
+Definition ex9_world : world :=
+  mkW 16 (E.mkEnv (E.mainnet_cfg 1) (E.mkBlock (2^256-1) 7 true (Some 1))
+                  (E.mkTx 200000 9 false 5 [] (Some 7) None [] None [] None None))
+      0xCA11E4 (Some 0x2000) 5 [] [] [] [] 0xC01BBA5E 100 1700000000 0 0x1234
+      [(0x2000, (100, 1, 78)); (0x3000, (7, 1, 79)); (0xCA11E4, (10^30, 7, 0))] []
+      [(78, ex9_code2); (79, ex9_code3)] [].
+Definition ex9_call : callreq := mkCall SchCall 100000 0x2000 0xCA11E4 0x2000 5 true false [] 0 0.
+Definition ex9_us : list Z := [0xCA11E4; 0x2000; 0x3000; 0x4000].
+
+Lemma ex9_wf : WF (gdb ex9_world (gstate_new ex9_world)) (gs (gstate_new ex9_world)).
+Proof.
+  split; [split|split].
+  - intros a acc H. discriminate.
+  - intros a b n c. cbn [gdb the_db Host.db_basic]. unfold ex9_world. cbn [w_accounts acc_lookup].
+    destruct (0x2000 =? a); [intros [= <- _ _]; unfold_pows; lia|].
+    destruct (0x3000 =? a); [intros [= <- _ _]; unfold_pows; lia|].
+    destruct (0xCA11E4 =? a); [intros [= <- _ _]; unfold_pows; lia|discriminate].
+  - intros a acc H. discriminate.
+  - cbn. congruence.
+Qed.
+
+Lemma ex9_sb : SB (gdb ex9_world (gstate_new ex9_world)) (gs (gstate_new ex9_world)).
+Proof.
+  apply (SB_support _ _ [0x2000; 0x3000; 0xCA11E4]).
+  - apply bal_nonneg. exact ex9_wf.
+  - intros a Ha. unfold bal, gs, gstate_new. cbn [g_sc fst Host.st Host.jnew].
+    unfold account_from_db, gdb, the_db. cbn [Host.db_basic]. unfold ex9_world. cbn [w_accounts acc_lookup].
+    destruct (0x2000 =? a) eqn:E1; [apply Z.eqb_eq in E1; exfalso; apply Ha; cbn; auto|].
+    destruct (0x3000 =? a) eqn:E2; [apply Z.eqb_eq in E2; exfalso; apply Ha; cbn; auto|].
+    destruct (0xCA11E4 =? a) eqn:E3; [apply Z.eqb_eq in E3; exfalso; apply Ha; cbn; auto|].
+    reflexivity.
+  - vm_compute. reflexivity.
+Qed.
+
+Example C08_interpreter_hypotheses_satisfiable :
+  let W := ex9_world in let G := gstate_new W in let d := gdb W G in
+  WF d (gs G) /\ SB d (gs G) /\ (cq_transfers ex9_call = true -> 0 <= cq_value ex9_call) /\
+  match do_call W (exec_nc 40 W) G ex9_call with
+  | XDone (G', r) =>
+      ir_res r = R_SelfDestruct /\
+      total d (gs G) ex9_us = 10 ^ 30 + 100 + 7 /\
+      total d (gs G') ex9_us = 10 ^ 30 + 100 + 7 - 9 /\
+      jburn (journal (gs G')) - jburn (journal (gs G)) = 9
+  | _ => False
+  end.
+Proof.
+  intros W G d. split; [exact ex9_wf|]. split; [exact ex9_sb|]. split; [intros _; vm_compute; discriminate|].
+  vm_compute. repeat split; reflexivity.
+Qed.
+
+(* the universe hypothesis on a concrete final state: every address outside the list is not
+   loaded (the state is a closure; decided by walking the bits of the address) *)
+Ltac loaded_in_universe :=
+  let a := fresh "a" in let H := fresh "H" in let NI := fresh "NI" in let p := fresh "p" in
+  intros a H;
+  match goal with |- In a ?L => destruct (in_dec Z.eq_dec a L) as [?|NI]; [assumption|exfalso; apply H; clear H] end;
+  vm_compute; destruct a as [|p|p]; try reflexivity;
+  repeat (destruct p as [p|p|]; try reflexivity; try solve [exfalso; apply NI; cbn; auto 10]).
+
+Definition ex9_cG : gstate :=
+  match do_call ex9_world (exec_nc 40 ex9_world) (gstate_new ex9_world) ex9_call with
+  | XDone (G', _) => G' | _ => gstate_new ex9_world end.
+
+Example C08_interpreter_call_universe_satisfiable :
+  NoDup ex9_us /\ forall a, Host.st (gs ex9_cG) a <> None -> In a ex9_us.
+Proof.
+  split; [repeat constructor; cbn; intuition discriminate|]. loaded_in_universe.
+Qed.
+
+(* ---------------------------------------------------------------- (f) the interpreter's transaction *)
+(* run_tx (Model/Evm.v: load_access_list, deduct_caller, apply_eip7702_auth_list, the first
+   frame, last_frame_return, refund, the EIP-7623 floor, reimburse_caller, reward_beneficiary) for
+   a call transaction whose execution issues no CREATE / CREATE2 — expressed by: the create-free
+   interpreter completes the first frame (then run_tx's own interpreter computes the same).
+   The journaled state passes through the stations of C08_transaction_conserves with that
+   execution in the middle, so, for every universe us that contains the sender and the
+   beneficiary and outside of which no balance has changed,
+
+     total after = total before - basefee * gas_used (LONDON onwards) - blob fee - burnt,
+
+   burnt = jburn of the final journal (the transaction starts with an empty journal); run_tx
+   always rewards the beneficiary.  [validated] is the situation validation (C02) and the gas
+   accounting (C13) provide, as in C08_transaction_conserves; d is the database of the world,
+   s00 the empty journaled state the transaction starts from. *)
+Theorem C08_interpreter_transaction_definitions :
+  forall W to G1 G2 ra r,
+    (tx_pre W G1 G2 ra <->
+       Evm.deduct_caller W (load_access_list W (gstate_new W)) = Some G1 /\
+       (if en (w_spec W) E.PRAGUE then apply_auths W G1 (w_auth_list W) 0 else (G1, 0)) = (G2, ra)) /\
+    tx_call W to = mkCall SchCall (E.tx_gas_limit (E.e_tx (w_env W)) - fst (E.initial_and_floor (w_spec W) (w_env W)))
+                          to (w_caller W) to (w_value W) true false (w_data W) 0 0 /\
+    tx_frame r = mkFrame (Evm.frame_class (ir_res r)) (Gas.remaining (ir_gas r)) (Gas.refunded (ir_gas r)) /\
+    auth_refund ra = ra * (G.PER_EMPTY_ACCOUNT_COST - G.PER_AUTH_BASE_COST).
+Proof. intros. split; [split; intros H; exact H|]. repeat split. Qed.
+
+Theorem C08_interpreter_transaction_conserves :
+  forall fuel W to G1 G2 ra G3 r res us,
+    let d := gdb W (gstate_new W) in
+    let s00 := gs (gstate_new W) in
+    let spec := w_spec W in let e := w_env W in
+    let caller := w_caller W in let cb := w_coinbase W in
+    let initial := fst (E.initial_and_floor spec e) in
+    let floor := snd (E.initial_and_floor spec e) in
+    w_to W = Some to -> tx_pre W G1 G2 ra ->
+    do_call W (exec_nc fuel W) G2 (tx_call W to) = XDone (G3, r) ->
+    run_tx fuel W = XDone res ->
+    WF d s00 -> SB d s00 -> 0 <= w_value W ->
+    NoDup us -> In caller us -> In cb us -> caller <> cb ->
+    (forall a, ~ In a us -> bal d (tr_state res) a = bal d s00 a) ->
+    validated spec e initial floor (tx_frame r) (auth_refund ra)
+              (bal d s00 caller) (bal d (gs G3) caller - bal d (gs G1) caller) (bal d (gs G3) cb) ->
+    bal d (gs G3) cb + tip spec e * tr_gas_used res < pow256 ->
+    total d (tr_state res) us =
+      total d s00 us
+      - (if enabled spec LONDON then b_basefee (e_block e) * tr_gas_used res else 0)
+      - blob_fee spec e
+      - jburn (journal (tr_state res)).
+Proof. exact run_tx_conserves. Qed.
+
+(* the natural universe: every account of the final journaled state (what the commit writes to
+   the database); the sender and the beneficiary are among them *)
+Theorem C08_interpreter_transaction_conserves_loaded :
+  forall fuel W to G1 G2 ra G3 r res us,
+    let d := gdb W (gstate_new W) in
+    let s00 := gs (gstate_new W) in
+    let spec := w_spec W in let e := w_env W in
+    let caller := w_caller W in let cb := w_coinbase W in
+    let initial := fst (E.initial_and_floor spec e) in
+    let floor := snd (E.initial_and_floor spec e) in
+    w_to W = Some to -> tx_pre W G1 G2 ra ->
+    do_call W (exec_nc fuel W) G2 (tx_call W to) = XDone (G3, r) ->
+    run_tx fuel W = XDone res ->
+    WF d s00 -> SB d s00 -> 0 <= w_value W ->
+    NoDup us -> (forall a, Host.st (tr_state res) a <> None -> In a us) -> caller <> cb ->
+    validated spec e initial floor (tx_frame r) (auth_refund ra)
+              (bal d s00 caller) (bal d (gs G3) caller - bal d (gs G1) caller) (bal d (gs G3) cb) ->
+    bal d (gs G3) cb + tip spec e * tr_gas_used res < pow256 ->
+    total d (tr_state res) us =
+      total d s00 us
+      - (if enabled spec LONDON then b_basefee (e_block e) * tr_gas_used res else 0)
+      - blob_fee spec e
+      - jburn (journal (tr_state res)).
+Proof. exact run_tx_conserves_loaded. Qed.
+
+(* universes as the theorem asks for exist: a transaction changes finitely many balances *)
+Theorem C08_interpreter_transaction_footprint :
+  forall fuel W to G1 G2 ra G3 r res,
+    let d := gdb W (gstate_new W) in
+    let s00 := gs (gstate_new W) in
+    w_to W = Some to -> tx_pre W G1 G2 ra ->
+    do_call W (exec_nc fuel W) G2 (tx_call W to) = XDone (G3, r) ->
+    run_tx fuel W = XDone res ->
+    WF d s00 -> SB d s00 -> 0 <= w_value W ->
+    exists us, NoDup us /\ In (w_caller W) us /\ In (w_coinbase W) us /\
+               forall a, ~ In a us -> bal d (tr_state res) a = bal d s00 a.
+Proof. exact run_tx_footprint. Qed.
+
+(* non-vacuity: the transaction of ex9_world (base fee 7, gas price 9, 67927 gas used) *)
+Definition ex9_G1 : gstate :=
+  match Evm.deduct_caller ex9_world (load_access_list ex9_world (gstate_new ex9_world)) with
+  | Some g => g | None => gstate_new ex9_world end.
+Definition ex9_G3r : gstate * iresult :=
+  match do_call ex9_world (exec_nc 60 ex9_world) ex9_G1 (tx_call ex9_world 0x2000) with
+  | XDone x => x | _ => (ex9_G1, mkIR 0 [] (Gas.gas_new 0)) end.
+Definition ex9_res : tx_result :=
+  match run_tx 60 ex9_world with
+  | XDone x => x | _ => mkTR 0 0 0 0 [] None [] (gs (gstate_new ex9_world)) [] end.
+Definition ex9_tus : list Z := [0xC01BBA5E; 0xCA11E4; 0x2000; 0x3000; 0x4000].
+
+Example C08_interpreter_transaction_hypotheses_satisfiable :
+  let W := ex9_world in
+  let d := gdb W (gstate_new W) in let s00 := gs (gstate_new W) in
+  let G3 := fst ex9_G3r in let r := snd ex9_G3r in
+  w_to W = Some 0x2000 /\ tx_pre W ex9_G1 ex9_G1 0 /\
+  do_call W (exec_nc 60 W) ex9_G1 (tx_call W 0x2000) = XDone (G3, r) /\
+  run_tx 60 W = XDone ex9_res /\
+  WF d s00 /\ SB d s00 /\ 0 <= w_value W /\
+  NoDup ex9_tus /\ In (w_caller W) ex9_tus /\ In (w_coinbase W) ex9_tus /\ w_caller W <> w_coinbase W /\
+  (forall a, Host.st (tr_state ex9_res) a <> None -> In a ex9_tus) /\
+  validated (w_spec W) (w_env W) (fst (E.initial_and_floor (w_spec W) (w_env W)))
+            (snd (E.initial_and_floor (w_spec W) (w_env W))) (tx_frame r) (auth_refund 0)
+            (bal d s00 (w_caller W)) (bal d (gs G3) (w_caller W) - bal d (gs ex9_G1) (w_caller W))
+            (bal d (gs G3) (w_coinbase W)) /\
+  bal d (gs G3) (w_coinbase W) + tip (w_spec W) (w_env W) * tr_gas_used ex9_res < pow256 /\
+  tr_gas_used ex9_res = 67927 /\
+  total d s00 ex9_tus = 10 ^ 30 + 100 + 7 /\
+  total d (tr_state ex9_res) ex9_tus = 10 ^ 30 + 100 + 7 - 7 * 67927 - 0 - 9 /\
+  jburn (journal (tr_state ex9_res)) = 9.
+Proof.
+  intros W d s00 G3 r. subst W.
+  split; [reflexivity|]. split.
+  { split; [|reflexivity]. unfold ex9_G1.
+    destruct (Evm.deduct_caller ex9_world (load_access_list ex9_world (gstate_new ex9_world))) eqn:E; [reflexivity|].
+    vm_compute in E. discriminate E. }
+  split.
+  { unfold G3, r, ex9_G3r.
+    destruct (do_call ex9_world (exec_nc 60 ex9_world) ex9_G1 (tx_call ex9_world 0x2000)) as [[x y]| |k] eqn:E;
+      [reflexivity|vm_compute in E; discriminate E|vm_compute in E; discriminate E]. }
+  split.
+  { unfold ex9_res. destruct (run_tx 60 ex9_world) as [x| |k] eqn:E;
+      [reflexivity|vm_compute in E; discriminate E|vm_compute in E; discriminate E]. }
+  split; [exact ex9_wf|]. split; [exact ex9_sb|]. split; [vm_compute; discriminate|].
+  split; [repeat constructor; cbn; intuition discriminate|].
+  split; [cbn; auto|]. split; [cbn; auto|]. split; [discriminate|].
+  split; [loaded_in_universe|].
+  split; [constructor; vm_compute; intuition discriminate|].
+  split; [vm_compute; reflexivity|].
+  vm_compute. repeat split; reflexivity.
+Qed.
+
+(* why the supply bound is a hypothesis (finding F13 seen through the interpreter): CANCUN,
+   0x2000 holds 5 wei and runs SELFDESTRUCT(0x4000), 0x4000 holds 2^256-3: the state is
+   well-formed, the call completes, 0x4000 ends with 2 wei, nothing is recorded as burnt, and the
+   total over the three accounts involved has dropped by exactly 2^256 *)
+Definition ex10_world : world :=
+  mkW 17 (E.mkEnv (E.mainnet_cfg 1) (E.mkBlock (2^256-1) 0 true (Some 1))
+                  (E.mkTx 200000 1 false 0 [] (Some 7) None [] None [] None None))
+      0xCA11E4 (Some 0x2000) 0 [] [] [] [] 0xC01BBA5E 100 1700000000 0 0x1234
+      [(0x2000, (5, 1, 78)); (0x4000, (2^256 - 3, 0, 0)); (0xCA11E4, (10^30, 7, 0))] []
+      [(78, [0x61;0x40;0x00;0xff])] [].
+Definition ex10_call : callreq := mkCall SchCall 100000 0x2000 0xCA11E4 0x2000 0 true false [] 0 0.
+
+Example C08_interpreter_credit_overflow_witness :
+  let W := ex10_world in let G := gstate_new W in let d := gdb W G in
+  let us := [0xCA11E4; 0x2000; 0x4000] in
+  WF d (gs G) /\ ~ SB d (gs G) /\
+  match do_call W (exec_nc 40 W) G ex10_call with
+  | XDone (G', r) =>
+      ir_res r = R_SelfDestruct /\
+      bal d (gs G) 0x2000 = 5 /\ bal d (gs G) 0x4000 = pow256 - 3 /\
+      bal d (gs G') 0x2000 = 0 /\ bal d (gs G') 0x4000 = 2 /\
+      total d (gs G') us = total d (gs G) us - pow256 /\
+      jburn (journal (gs G')) = jburn (journal (gs G))
+  | _ => False
+  end.
+Proof.
+  intros W G d us. subst d G W. split; [|split].
+  - split; [split|split].
+    + intros a acc H. discriminate.
+    + intros a b n c. cbn [gdb the_db Host.db_basic]. unfold ex10_world. cbn [w_accounts acc_lookup].
+      destruct (0x2000 =? a); [intros [= <- _ _]; unfold_pows; lia|].
+      destruct (0x4000 =? a); [intros [= <- _ _]; unfold_pows; lia|].
+      destruct (0xCA11E4 =? a); [intros [= <- _ _]; unfold_pows; lia|discriminate].
+    + intros a acc H. discriminate.
+    + cbn. congruence.
+  - intros B. assert (N : NoDup us) by (repeat constructor; cbn; intuition discriminate).
+    specialize (B us N). vm_compute in B. discriminate B.
+  - vm_compute. repeat split; reflexivity.
+Qed.
+
+(* the theorem applied to the example: all its hypotheses hold together *)
+Example C08_interpreter_transaction_example :
+  let W := ex9_world in let d := gdb W (gstate_new W) in
+  total d (tr_state ex9_res) ex9_tus =
+    total d (gs (gstate_new W)) ex9_tus
+    - (if enabled (w_spec W) LONDON then b_basefee (e_block (w_env W)) * tr_gas_used ex9_res else 0)
+    - blob_fee (w_spec W) (w_env W) - jburn (journal (tr_state ex9_res)).
+Proof.
+  intros W d.
+  destruct C08_interpreter_transaction_hypotheses_satisfiable
+    as (Hto & HP & HC & HR & Wf & B & Hv & ND & _ & _ & Ncb & Ld & V & NS & _).
+  exact (C08_interpreter_transaction_conserves_loaded 60 ex9_world 0x2000 ex9_G1 ex9_G1 0 (fst ex9_G3r) (snd ex9_G3r)
+           ex9_res ex9_tus Hto HP HC HR Wf B Hv ND Ld Ncb V NS).
 Qed.
